@@ -26,6 +26,7 @@ type Config struct {
 	Bounds          map[string]int
 	NoMerge         bool
 	EagerFeas       bool
+	NoPrune         bool
 	Trace           bool
 	SolverLog       string
 	Deadline        time.Time
@@ -337,6 +338,9 @@ func (e *Engine) obligation(st *State, cond *Term, kind, id string, instr ssa.In
 	e.sync(st.pc)
 	neg := e.tm.Not(cond)
 	e.solver.Push()
+	if e.solver.log != nil {
+		e.solver.send("; obligation " + kind + ":" + id)
+	}
 	e.solver.Assert(neg)
 	t0 := time.Now()
 	r := e.solver.Check()
